@@ -214,6 +214,8 @@ def run(ctx, prog):
     from rules import shift
     shift.run(ctx, prog)
     shift.run_signext(ctx, prog)
+    from rules import c05
+    c05.false_only_on_failure(ctx, prog)
     E = {}
     for e in prog.enum("DeserializationError::Code"):
         for c in e["consts"]:
